@@ -858,7 +858,7 @@ def run(ctx: vlib.Ctx):
 
     # ---- (A) container level
     chists = list(container_patterns())
-    for _ in range(ctx.budget(44, 500)):
+    for _ in range(ctx.budget(36, 500)):
         keys = rng.sample(KEY_POOL, rng.randint(3, 6))
         prefix = targeted_prefix(rng, keys) if rng.random() < 0.4 else []
         chists.append(gen_container_history(rng, len(prefix) + rng.randint(4 if prefix else 6, ctx.budget(12 if prefix else 16, 22)), keys,
@@ -880,7 +880,7 @@ def run(ctx: vlib.Ctx):
 
     # ---- (B) protocol level: three drivers + model
     phists = []
-    for _ in range(ctx.budget(150, 1600)):
+    for _ in range(ctx.budget(120, 1600)):
         keys = rng.sample(KEY_POOL, rng.randint(3, 6))
         akeys = rng.sample(KEY_POOL, rng.randint(1, 3))
         phists.append(gen_protocol_history(rng, rng.randint(4, ctx.budget(16, 28)), keys, akeys,
